@@ -391,7 +391,7 @@ class Reader:
         NB: This is not equivalent to overwrite (which replaces the output file)
         :return: pathlib.Path of the decompressed *.bin file
         """
-        if "out" not in kwargs:
+        if kwargs.get("out") is None:
             kwargs["out"] = self.file_bin.with_suffix(".bin")
         assert self.is_mtscomp
         r = mtscomp.decompress(
